@@ -15,8 +15,7 @@ package queues
 
 //@ func NewQueue
 //@   props C04 C01 C17
-//@   modifies $alloc, result.readChunk, result.writeChunk, result.writeCount, result.readCount, result.maxCapacity, result.closed, result.$lg, result.$base, result.$inQ,
-//@            linkedbuffer.Chunk.Data, linkedbuffer.Chunk.NextWriteIndex, linkedbuffer.Chunk.NextReadIndex, linkedbuffer.Chunk.Next, linkedbuffer.Chunk.Data[**]
+//@   modifies $alloc
 //@   ensures [fresh] $fresh(result)
 //@   ensures [empty] result.readCount == 0 && result.writeCount == 0 && !result.closed
 //@   ensures [ri]    @RI_Queue(result)
@@ -139,7 +138,7 @@ package queues
 
 //@ func NewPriorityQueue
 //@   props C04 C17
-//@   modifies $alloc, heapQueue.items, heapQueue.items[**], heapQueue.$mem, heapQueue.$idx, PriorityQueue.internal, PriorityQueue.insertionCount, PriorityQueue.closed
+//@   modifies $alloc
 //@   ensures [fresh] $fresh(result) && result.insertionCount == 0 && !result.closed
 //@   ensures [empty] len(result.internal.items) == 0
 //@   ensures [ri]    RI_PQ(result)
